@@ -5,7 +5,6 @@ CONSTANTS D <- MCD
   MaxCalls = 2
   MaxRegs = 1
   Locked = TRUE
-SPECIFICATION MCSpec
-INVARIANTS NoCrash Exclusion SeesCompleted ReadersAreRunning
-PROPERTIES StableUnderReaders
+SPECIFICATION MCSpecLeak
+INVARIANTS ReadersAreRunning
 CHECK_DEADLOCK FALSE
